@@ -27,7 +27,12 @@ func ellipsis(str []byte, length int) []byte {
 		if len(str) < 3 || length < 3 {
 			return []byte("...")
 		}
-		return append(bytes.TrimSpace(str[0:length-3]), '.', '.', '.')
+		// copy: appending to the trimmed sub-slice would overwrite the caller's bytes
+		trimmed := bytes.TrimSpace(str[0 : length-3])
+		out := make([]byte, 0, len(trimmed)+3)
+		out = append(out, trimmed...)
+
+		return append(out, '.', '.', '.')
 	}
 
 	return str
